@@ -65,30 +65,41 @@ def run(chk, repo, tier):
     a, b, n = var("a", "point"), var("b", "point"), var("n", "int")
     it = Interp(w, summaries=summ)
     T = lambda op, *args, sort="point": Term(op, args, sort)
+    pending = []
+
     def wrapper(fn, args):
         """value of a wrapper on symbolic arguments; a wrapper that branches on its arguments, recurses or uses constructs
         outside the fragment is *not* the stated composition"""
         from ..interp import enumerate_paths
         try:
             ps = enumerate_paths(w, lambda it2: it2.call_func(repo.func(f"{SECP}.{fn}"), list(args), {}), summaries=summ, max_paths=40)
-        except (AnalysisError, RecursionError) as ex:
-            return Term("not_a_composition", (str(ex)[:160],), "point")
+        except RecursionError as ex:
+            return Term("not_a_composition", ("the wrapper recurses without bound",), "point")
+        except AnalysisError as ex:
+            # outside the fragment (a different multiplication routine, a table, a loop): undecided, not a violation
+            pending.append(AnalysisError(f"{SECP}.{fn}: {ex}"))
+            return Term("undecided", (str(ex)[:160],), "point")
         if len(ps) != 1 or ps[0].outcome != "return":
             return Term("not_a_composition", (f"{len(ps)} paths: the wrapper branches on its arguments "
                                               f"({'; '.join(' '.join(p_.branch_lines()) for p_ in ps[:3])})"[:200],), "point")
         return ps[0].value
+    def decided(r):
+        return not (isinstance(r, Term) and r.op == "undecided")
     r = wrapper("multiply", [a, n])
-    chk.ob("C18.R3", f"{SECP}.multiply", "from_jacobian(jacobian_multiply(to_jacobian(a), n))",
-           r is T("from_jacobian", T("jacobian_multiply", T("to_jacobian", a), n)), f"got {show(r)}", repo.func(f"{SECP}.multiply").where)
+    if decided(r):
+        chk.ob("C18.R3", f"{SECP}.multiply", "from_jacobian(jacobian_multiply(to_jacobian(a), n))",
+               r is T("from_jacobian", T("jacobian_multiply", T("to_jacobian", a), n)), f"got {show(r)}", repo.func(f"{SECP}.multiply").where)
     r = wrapper("add", [a, b])
-    chk.ob("C18.R3", f"{SECP}.add", "from_jacobian(jacobian_add(to_jacobian(a), to_jacobian(b)))",
-           r is T("from_jacobian", T("jacobian_add", T("to_jacobian", a), T("to_jacobian", b))), f"got {show(r)}", repo.func(f"{SECP}.add").where)
+    if decided(r):
+        chk.ob("C18.R3", f"{SECP}.add", "from_jacobian(jacobian_add(to_jacobian(a), to_jacobian(b)))",
+               r is T("from_jacobian", T("jacobian_add", T("to_jacobian", a), T("to_jacobian", b))), f"got {show(r)}", repo.func(f"{SECP}.add").where)
     k = var("privkey", "bytes")
     r = wrapper("privtopub", [k])
     Gt = (consts["Gx"], consts["Gy"])
     want = T("from_jacobian", T("jacobian_multiply", T("to_jacobian", Gt), T("os2ip", k, sort="int")))
-    chk.ob("C18.R3", f"{SECP}.privtopub", "multiply(G, OS2IP(privkey)), G = (Gx, Gy)", r is want and consts["G"] == Gt,
-           f"got {show(r)[:200]}", repo.func(f"{SECP}.privtopub").where)
+    if decided(r):
+        chk.ob("C18.R3", f"{SECP}.privtopub", "multiply(G, OS2IP(privkey)), G = (Gx, Gy)", r is want and consts["G"] == Gt,
+               f"got {show(r)[:200]}", repo.func(f"{SECP}.privtopub").where)
     check_bytes_to_int(chk, "C18.R3", repo, w)
     # ---- constants
     lit = {"P": SP.SECP_P, "N": SP.SECP_N, "A": SP.SECP_A, "B": SP.SECP_B, "Gx": SP.SECP_GX, "Gy": SP.SECP_GY}
@@ -106,6 +117,10 @@ def run(chk, repo, tier):
     from ..assoc import obligations as assoc_obligations
     for name, ok, det in assoc_obligations("quick"):
         chk.ob("C18.R4", "vstatic.curvelaw (affine table)", name, ok, det, "vstatic/curvelaw.py")
+    if pending:
+        failed = any(not o["ok"] for o in getattr(chk, "obligations", [])) or any(not o[3] for o in getattr(chk, "obs", []))
+        if not failed:
+            raise pending[0]
 
 
 MANIFEST = {
